@@ -331,3 +331,45 @@ def multiphase_from_desc(t: dict):
     if t["kind"] == "shipped":
         return shipped_multiphase(t["Sw"])
     return synthetic_multiphase(t["family"], t["prm"], t["n"], t["p_lo"], t["p_hi"], t["grid"], t["seed"], t["Sw"])
+
+
+def probe_from_table_error_path(ck, desc, selector: int):
+    """FlowPropertiesTwoPhase.from_table on a table it cannot use as it stands - an oil saturation a hair (or well)
+    outside the rel-perm table's range, a missing column, an initial pressure outside the table: whether the call
+    raises or copes, the CALLER's tables are left exactly as they were (DataFrame and dict of arrays alike)."""
+    import warnings
+
+    from bluebonnet.flow import FlowPropertiesTwoPhase, RelPermParams, relative_permeabilities_twophase
+    from vf import instrument
+
+    base = shipped_multiphase(0.1)
+    kr = relative_permeabilities_twophase(RelPermParams(2.0, 2.0, 2.0, 0.05, 0.1, 0.05, 1.0, 0.5, 0.9), 0.1)
+    so_hi = float(np.max(np.asarray(kr["So"], dtype=float)))
+    how = ["one-ulp-above", "well-above", "below", "missing-column", "p_i-outside"][selector % 5]
+    for form in ("df", "dict"):
+        cols = {k: np.array(base[k], dtype=float, copy=True) for k in MP_COLS}
+        p_i = float(cols["pressure"][len(cols["pressure"]) // 2])
+        if how == "one-ulp-above":
+            cols["So"][11] = np.nextafter(so_hi, 2.0)
+        elif how == "well-above":
+            cols["So"][5:9] = so_hi + 0.04
+        elif how == "below":
+            cols["So"][3] = -1e-9
+        elif how == "missing-column":
+            del cols["mu_g"]
+        else:
+            p_i = float(cols["pressure"][-1]) * 1.5
+        arg = pd.DataFrame(cols) if form == "df" else cols
+        kr_arg = pd.DataFrame(kr).copy()
+        snap, snap_kr = instrument.snapshot(arg), instrument.snapshot(kr_arg)
+        try:
+            with warnings.catch_warnings(), np.errstate(all="ignore"):
+                warnings.simplefilter("ignore")
+                FlowPropertiesTwoPhase.from_table(arg, kr_arg, {"rho_o0": 50.0, "rho_g0": 0.06, "rho_w0": 62.4}, 0.1, 0.1, p_i)
+            ck.count(f"from_table_on_unusable_tables.{how}.returned")
+        except Exception as e:  # noqa: BLE001
+            ck.count(f"from_table_on_unusable_tables.{how}.raised.{type(e).__name__}")
+        if not instrument.same_snapshot(snap, instrument.snapshot(arg)):
+            ck.violation("caller-table-unmodified", {"fn": "FlowPropertiesTwoPhase.from_table", "table": "PVT table as " + form, "made_unusable_by": how}, desc)
+        if not instrument.same_snapshot(snap_kr, instrument.snapshot(kr_arg)):
+            ck.violation("caller-table-unmodified", {"fn": "FlowPropertiesTwoPhase.from_table", "table": "rel-perm table", "made_unusable_by": how}, desc)
